@@ -5,7 +5,7 @@ namespace BdModel.Canon.Agent
 def h_agent_Agent_Status : Nat := 0x05778f85d70816ed
 
 /-- hash of the normalised skeleton of Run (internal/agent/agent.go) -/
-def h_agent_Agent_Run : Nat := 0x579b1c596e304ad2
+def h_agent_Agent_Run : Nat := 0x7a140875874af04e
 
 /-- hash of the normalised skeleton of GetLatestStatus (internal/client/client.go) -/
 def h_agent_client_GetLatestStatus : Nat := 0x51464a23d1cad9d6
@@ -15,5 +15,14 @@ def h_agent_client_currentStatus : Nat := 0x795ad5b48b10d443
 
 /-- hash of the normalised skeleton of CorrectRunningStatus (internal/persistence/model/status.go) -/
 def h_agent_Status_CorrectRunningStatus : Nat := 0x504f146ae069e9e6
+
+/-- hash of the normalised skeleton of signal (internal/agent/agent.go) -/
+def h_agent_Agent_signal : Nat := 0xe8f87d0717116a2b
+
+/-- hash of the normalised skeleton of Signal (internal/agent/agent.go) -/
+def h_agent_Agent_Signal : Nat := 0xb269b57c1b0b5730
+
+/-- hash of the normalised skeleton of HandleHTTP (internal/agent/agent.go) -/
+def h_agent_Agent_HandleHTTP : Nat := 0x493fc7cf66390e9a
 
 end BdModel.Canon.Agent
